@@ -93,6 +93,23 @@ def judge(case):
     rets = M.returns(prog["body"])
     nt = False
     extra = M.dec_inputs(case["extra"])
+    # a second evaluator built from the very same text is another object with a life of its own: moving IT to another salt
+    # (and back) has no say in what this one returns
+    ev_same, _ = _compile(prog)
+    if ev_same is not None and case["inputs"]:
+        env0 = M.dec_inputs(case["inputs"][0])
+        before = sut.call(ev, env0)
+        try:
+            ev_same.recompile(M.render(dict(prog, salt={"v": "another-salt", "q": '"'})))
+            mid = sut.call(ev, env0)
+            ev_same.recompile(M.render(dict(prog, name="moved_on", salt={"v": "s2", "q": '"'})))
+        except Exception as e:
+            mid = ("error", type(e).__name__, str(e)[:100])
+        after = sut.call(ev, env0)
+        if not (_same(before, mid) and _same(before, after)):
+            viol.append("recompiling ANOTHER evaluator built from the same text changed this one's result: %r, then %r, then %r%s | %s | inputs=%r"
+                        % (before[1:], mid[1:], after[1:], " (the two constructor calls returned one and the same object)" if ev_same is ev else "", text, env0))
+            ev, _ = _compile(prog)
     for enc, enc_alt in zip(case["inputs"], case["alts"]):
         env = M.dec_inputs(enc)
         alt = M.dec_inputs(enc_alt)
